@@ -1,12 +1,64 @@
 /-
-  Props.C16 — the theorems that decide property C16 (see DESIGN.md §7).
+  Props.C16 — a successful Search over JSON data returns JSON data
+  (DESIGN.md §7, C16).  "JSON data" = `Val.isJSON`: null, booleans, FINITE
+  numbers, strings, arrays and objects with strictly ascending (hence unique)
+  string keys, recursively.  The model's `Val` has no constructor for internal
+  objects (expression references are closures that never become values: that is
+  the parser's guarantee, C04) and does not distinguish nil from empty
+  containers (that distinction is observed on the implementation by the
+  harness's canonical rendering).
 -/
 import Props.Tables
+import Proofs.EvalJson
 namespace Jmes.Props
-open Jmes
+open Jmes Jmes.Interp
 
 theorem C16_generated_table_ok : TableOK Generated.table = true := generated_table_ok
 theorem C16_generated_sigs_ok : SigsOK Generated.functionTable Spec.functionTable = true := generated_sigs_ok
 theorem C16_generated_lex_ok : LexTablesOK Model.lexTables Spec.lexTables = true := generated_lex_ok
+
+variable {N : Type} [NumOps N] [NumLaws N]
+
+/-- Closure: for numbers obeying `NumLaws` — in particular sums and averages
+    of the numbers at hand stay finite: "numbers of moderate magnitude" — every
+    successful evaluation of an expression whose literals are JSON, on a JSON
+    document, is JSON.  Holds for every function table, so in particular for
+    the one regenerated from /repo. -/
+theorem C16_closure (n : Node N) (hl : litsJSON n) (d r : Val N) (hd : d.isJSON = true)
+    (h : eval Generated.functionTable n d = .ok r) : r.isJSON = true :=
+  eval_json Generated.functionTable n hl d r hd h
+
+/-- In particular: no NaN or infinity at any depth. -/
+theorem C16_numbers_are_finite (n : Node N) (hl : litsJSON n) (d : Val N) (hd : d.isJSON = true) (x : N)
+    (h : eval Generated.functionTable n d = .ok (.num x)) : NumOps.isFinite x = true :=
+  (Val.isJSON_num x).mp (C16_closure n hl d _ hd h)
+
+/-- The two arithmetic results that can leave the finite range are guarded:
+    avg of an empty array is null, to_number of a string that does not denote a
+    finite number is null. -/
+theorem C16_avg_empty_is_null : Fn.handle (N := N) .avg false [.val (.arr [])] = .ok .null := rfl
+
+theorem C16_to_number_is_finite_or_null (s : Bytes) (r : Val N)
+    (h : Fn.handle (N := N) .toNumber false [.val (.str s)] = .ok r) :
+    r = .null ∨ ∃ x, r = .num x ∧ NumOps.isFinite x = true := by
+  simp only [Fn.handle, Bool.false_eq_true, if_false] at h
+  cases hp : (NumOps.parse s : Option N) with
+  | none => rw [hp] at h; cases h; exact Or.inl rfl
+  | some x =>
+    rw [hp] at h
+    simp only [] at h
+    split at h
+    · rename_i hfin; cases h; exact Or.inr ⟨x, rfl, hfin⟩
+    · cases h; exact Or.inl rfl
+
+/-- Raw-string literals are JSON; literals decoded from JSON text are JSON
+    whenever the decoder delivers finite numbers (encoding/json rejects
+    out-of-range numbers; modelled, validated on the `jsoncodec` stream). -/
+theorem C16_raw_string_literal_is_json (s : Bytes) : litsJSON (N := N) (.literal (.str s)) := rfl
+
+/-! Non-vacuity: the integers satisfy `NumLaws`; a concrete evaluation. -/
+example : NumLaws Int := inferInstance
+example : eval (N := Int) Generated.functionTable (.msList [.current, .literal (.str [0x78])]) (.num 3)
+    = .ok (.arr [.num 3, .str [0x78]]) := by simp [eval, evalList]
 
 end Jmes.Props
